@@ -14,12 +14,13 @@ fn pick<'a, T: Clone>(u: &mut Unstructured<'a>, items: &[T]) -> T {
 fn byte(u: &mut Unstructured) -> u8 { u.arbitrary::<u8>().unwrap_or(0) }
 
 fn wsel(u: &mut Unstructured) -> WSel {
-    match byte(u) % 8 {
+    match byte(u) % 9 {
         0 | 1 => WSel::Abs(1 + (byte(u) % 64) as i64),
         2 | 3 => WSel::Sixteenth(1 + byte(u) % 16),
         4 => WSel::Limit,
         5 => WSel::LimitMinus(1 + (byte(u) % 2) as i64),
         6 => WSel::LimitPlus(1 + (byte(u) % 2) as i64),
+        7 => WSel::Current,
         _ => WSel::TwiceLimit,
     }
 }
